@@ -423,6 +423,14 @@ def main(argv=None):
                 known_info.append({'id': e['id'], 'reproduces': False})
         elif e['status'] == 'fixed':
             if failed is not None:
+                try:
+                    other = importlib.import_module(modname).known_class(failed.sig, case)
+                except Exception:
+                    other = None
+                if other and other != e['id'] and known_status.get(other) == 'known':
+                    # the old reproducer now runs into a different, listed finding: not a return of the fixed one
+                    known_info.append({'id': e['id'], 'reproduces': False, 'note': 'replay reaches known finding %s' % other})
+                    continue
                 violations.append((failed.sig, path, 'fixed finding %s has returned: %s' % (e['id'], failed.msg)))
     regress_dir = os.path.join(VERIF, 'corpus', prop, 'regress')
     n_regress = 0
@@ -492,8 +500,7 @@ def main(argv=None):
                 failures[sig] = f
         excluded.update(s['excluded'])
         notes.update(s['notes'])
-        if s['exhaustive'] is not None:
-            exhaustive.append(s['exhaustive'])
+        exhaustive.append(bool(s['exhaustive']))
     for sig, f in sorted(failures.items()):
         path = write_replay(prop, f)
         violations.append((sig, path, f['msg']))
@@ -516,6 +523,7 @@ def main(argv=None):
             'samples': sample_list,
             'classes': dict(sorted(classes.items())),
             'exhaustive': bool(exhaustive) and all(exhaustive),
+            'exhaustive_shards': sum(exhaustive),
             'shards': len(shards),
             'excluded_known_findings': dict(excluded),
             'known_findings': known_info,
